@@ -733,6 +733,22 @@ loop:
 					continue
 				}
 
+				if fr.Type() == FramePriority {
+					// PRIORITY may be sent for a stream in any state, idle
+					// included, and it does not open the stream (RFC 7540 5.1,
+					// 6.3). This server makes no use of priorities, so there
+					// is nothing to keep: creating a stream here would hold a
+					// table entry and a request context, uncounted, for the
+					// rest of the connection, once per frame the peer cares
+					// to send.
+					if fr.Body().(*Priority).Stream() == fr.Stream() {
+						sc.writeGoAway(fr.Stream(), ProtocolError, "stream that depends on itself")
+						break loop
+					}
+
+					continue
+				}
+
 				// if the client has more open streams than the maximum allowed OR
 				//   the connection is closing, then refuse the stream
 				if openStreams >= int(sc.st.maxStreams) || wasClosing {
